@@ -44,7 +44,7 @@ def nextup(x):
     return math.nextafter(x, math.inf)
 
 
-def float_cross(ck, calls, rtol=1e-9, cond_limit=1e6):
+def float_cross(ck, calls, rtol=1e-9, cond_limit=1e6, exe="drv_num"):
     """calls: list of (name, args tuple, python_value or tuple).  Runs the compiled Float model
     on the same doubles (bit patterns) and compares.  Ill-conditioned points (a 1-ulp input
     perturbation moves the Lean result by more than cond_limit ulp-equivalents) are counted but
@@ -58,7 +58,7 @@ def float_cross(ck, calls, rtol=1e-9, cond_limit=1e6):
             pa[i] = nextup(pa[i])
             lines.append(name + " " + " ".join(str(bits(a)) for a in pa))
             meta.append((name, args, val, "pert"))
-    out = ck.driver(lines, exe="drv_num")
+    out = ck.driver(lines, exe=exe)
     compared = 0
     i = 0
     while i < len(lines):
